@@ -29,17 +29,95 @@ func c17Apply(doc string, r *[4]uint32, text string) string {
 }
 
 func c17Emit(e *emitter, doc string, r *[4]uint32, text string) {
+	c17EmitWith(e, doc, r, text, c17Apply(doc, r, text), "")
+}
+
+// c17EmitWith emits a step whose implementation output was produced by a LONG-LIVED document (history): the
+// copy before the step is the input, the copy after it the output. hist distinguishes the same step reached
+// through different histories.
+func c17EmitWith(e *emitter, doc string, r *[4]uint32, text string, out string, hist string) {
 	rs := "-"
 	if r != nil {
 		rs = fmt.Sprintf("%d,%d,%d,%d", r[0], r[1], r[2], r[3])
 	}
-	key := hx(doc) + " " + rs + " " + hx(text)
-	e.emit(key, "apply", hx(doc), rs, hx(text), c17Apply(doc, r, text))
+	key := hx(doc) + " " + rs + " " + hx(text) + " " + hist
+	e.emit(key, "apply", hx(doc), rs, hx(text), out)
+}
+
+func lspRange(r *[4]uint32) *lsp.Range {
+	if r == nil {
+		return nil
+	}
+	return &lsp.Range{Start: lsp.Position{Line: r[0], Character: r[1]}, End: lsp.Position{Line: r[2], Character: r[3]}}
+}
+
+type c17Change struct {
+	r    *[4]uint32
+	text string
+}
+
+func c17EncChanges(cs []c17Change) string {
+	parts := []string{}
+	for _, c := range cs {
+		rs := "-"
+		if c.r != nil {
+			rs = fmt.Sprintf("%d,%d,%d,%d", c.r[0], c.r[1], c.r[2], c.r[3])
+		}
+		parts = append(parts, rs+"|"+hx(c.text))
+	}
+	if len(parts) == 0 {
+		return "-"
+	}
+	return strings.Join(parts, ";")
+}
+
+// c17Hist runs a whole history on ONE real document object and emits it as a single case (replayable as such).
+func c17Hist(e *emitter, doc0 string, cs []c17Change) {
+	d := proxy.NewDocument(quietLog, doc0)
+	out := "PANIC"
+	p, _ := safely(func() {
+		for _, c := range cs {
+			d.Apply(lspRange(c.r), c.text)
+		}
+	})
+	if !p {
+		out = hx(d.String())
+	}
+	enc := c17EncChanges(cs)
+	e.emit("hist "+hx(doc0)+" "+enc, "hist", hx(doc0), enc, out)
+}
+
+// c17Step applies one change to a long-lived document and emits it as a case.
+func c17Step(e *emitter, d *proxy.Document, r *[4]uint32, text string, hist string) bool {
+	before := d.String()
+	out := "PANIC"
+	p, _ := safely(func() { d.Apply(lspRange(r), text) })
+	if !p {
+		out = hx(d.String())
+	}
+	c17EmitWith(e, before, r, text, out, hist)
+	return !p
 }
 
 func runC17(e *emitter, tier string, seed uint64) {
 	// corpus first
 	for _, f := range e.corpusLines() {
+		if len(f) >= 4 && f[0] == "C17" && f[1] == "hist" {
+			var cs []c17Change
+			if f[3] != "-" {
+				for _, part := range strings.Split(f[3], ";") {
+					rt := strings.SplitN(part, "|", 2)
+					var r *[4]uint32
+					if rt[0] != "-" {
+						var a [4]uint32
+						fmt.Sscanf(rt[0], "%d,%d,%d,%d", &a[0], &a[1], &a[2], &a[3])
+						r = &a
+					}
+					cs = append(cs, c17Change{r, unhx(rt[1])})
+				}
+			}
+			c17Hist(e, unhx(f[2]), cs)
+		}
 		if len(f) >= 5 && f[0] == "C17" && f[1] == "apply" {
 			var r *[4]uint32
 			if f[3] != "-" {
@@ -85,6 +163,27 @@ func runC17(e *emitter, tier string, seed uint64) {
 		}
 		c17Emit(e, doc, nil, "x\ny")
 	})
+	// two-step histories on ONE document object: a ranged whole-document replace (or a nil-range replace, or an
+	// ordinary edit) followed by every small edit of the new document
+	firsts := []string{"hello world", "x\ny\nz", "", "\n", "long line here\nb"}
+	for _, doc := range []string{"a\nb", "ab", "a\nbcd\ne", "\n"} {
+		lines := strings.Split(doc, "\n")
+		whole := &[4]uint32{0, 0, uint32(len(lines) - 1), uint32(len(lines[len(lines)-1]))}
+		for _, first := range firsts {
+			for _, fr := range []*[4]uint32{whole, nil, {0, 0, 0, 1}, {9, 9, 9, 9}} {
+				nl := strings.Split(first, "\n")
+				for l := uint32(0); l <= uint32(len(nl)); l++ {
+					for c := uint32(0); c <= 12; c += 1 {
+						for _, t := range []string{"X", "", "\n"} {
+							for _, span := range []uint32{0, 1, 3} {
+								c17Hist(e, doc, []c17Change{{fr, first}, {&[4]uint32{l, c, l, c + span}, t}})
+							}
+						}
+					}
+				}
+			}
+		}
+	}
 	// random long documents and edit sequences (each step is one case: the copy before the step is the input)
 	r := &rng{s: seed}
 	nseq := 300
@@ -100,6 +199,7 @@ func runC17(e *emitter, tier string, seed uint64) {
 		}
 		doc := sb.String()
 		d := proxy.NewDocument(quietLog, doc)
+		var hist []c17Change
 		steps := 1 + r.intn(12)
 		for k := 0; k < steps; k++ {
 			cur := d.String()
@@ -137,15 +237,13 @@ func runC17(e *emitter, tier string, seed uint64) {
 			if !r.chance(1, 15) {
 				rp = &[4]uint32{sl, sc, el, ec}
 			}
-			c17Emit(e, cur, rp, tb.String())
-			// advance the real document (history): apply the same change to the long-lived copy
-			var lr *lsp.Range
-			if rp != nil {
-				lr = &lsp.Range{Start: lsp.Position{Line: sl, Character: sc}, End: lsp.Position{Line: el, Character: ec}}
-			}
-			if p, _ := safely(func() { d.Apply(lr, tb.String()) }); p {
+			_ = cur
+			// the step runs on the long-lived copy (history): its state before and after is what the driver sees
+			hist = append(hist, c17Change{rp, tb.String()})
+			if !c17Step(e, d, rp, tb.String(), fmt.Sprintf("seq%d:%d", i, k)) {
 				break
 			}
 		}
+		c17Hist(e, doc, hist)
 	}
 }
